@@ -59,7 +59,37 @@ DEEP_FILE = os.path.join(os.path.dirname(os.path.abspath(__file__)), "deep_snaps
 _DEEP = None
 
 
-def deep_sig(prog, f):
+class _Timeout(Exception):
+    pass
+
+
+def _with_budget(seconds, fn):
+    """run fn() under a wall-clock budget (SIGALRM; main thread only - elsewhere it simply runs); None when it ran out"""
+    import signal
+    import threading
+    if threading.current_thread() is not threading.main_thread():
+        return fn()
+
+    def _h(sig, frm):
+        raise _Timeout()
+    old = signal.signal(signal.SIGALRM, _h)
+    signal.setitimer(signal.ITIMER_REAL, seconds)
+    try:
+        return fn()
+    except _Timeout:
+        return None
+    finally:
+        signal.setitimer(signal.ITIMER_REAL, 0)
+        signal.signal(signal.SIGALRM, old)
+
+
+def deep_sig(prog, f, budget=None):
+    if budget:
+        return _with_budget(budget, lambda: deep_sig(prog, f))
+    return _deep_sig(prog, f)
+
+
+def _deep_sig(prog, f):
     """path table of the *deep form* of f (bodies of its same-crate callees spliced in, engine/inline.py deep_fn): the same for two
     versions of f that differ only in where helper boundaries are.  None when it is too large to be useful."""
     from engine import inline
